@@ -1,0 +1,183 @@
+//! External-address voting hooks (property C17): a facade over the crate-private `IpVote` and a
+//! real `Service` (no handler task, `start` loop not running) whose PONG handling is invoked
+//! directly.
+use crate::{
+    kbucket::{ConnectionState, NodeStatus},
+    rpc::RequestId,
+    service::{Service, VerifIpVote},
+    ConfigBuilder, ConnectionDirection, Enr, Event, IpMode, ListenConfig, NodeContact,
+};
+use enr::{CombinedKey, NodeId};
+use parking_lot::RwLock;
+use std::{
+    net::{SocketAddr, SocketAddrV4, SocketAddrV6},
+    sync::Arc,
+    time::Duration,
+};
+use tokio::sync::mpsc;
+
+/// `service::ip_vote::IpVote`.
+pub struct IpVoteFacade {
+    inner: VerifIpVote,
+}
+
+impl IpVoteFacade {
+    /// Panics for `minimum_threshold < 2`, as `IpVote::new` does.
+    pub fn new(minimum_threshold: usize, vote_duration: Duration) -> Self {
+        IpVoteFacade {
+            inner: VerifIpVote::new(minimum_threshold, vote_duration),
+        }
+    }
+    pub fn insert(&mut self, key: NodeId, socket: SocketAddr) {
+        self.inner.insert(key, socket)
+    }
+    pub fn majority(&mut self) -> (Option<SocketAddrV4>, Option<SocketAddrV6>) {
+        self.inner.majority()
+    }
+    pub fn has_minimum_threshold(&mut self) -> (bool, bool) {
+        self.inner.has_minimum_threshold()
+    }
+}
+
+/// The clear-majority threshold expression of `IpVote` for a leading count of `max_count`.
+pub fn clear_majority_threshold(max_count: usize) -> usize {
+    VerifIpVote::verif_clear_majority_threshold(max_count)
+}
+
+/// A real `Service` for driving the PONG handling.
+pub struct PongService {
+    service: Service,
+    events: mpsc::Receiver<Event>,
+    next_id: u64,
+    _handler_rx: mpsc::UnboundedReceiver<crate::handler::HandlerIn>,
+    _handler_tx: mpsc::Sender<crate::handler::HandlerOut>,
+}
+
+impl PongService {
+    /// `dual_stack` selects `IpMode::DualStack` (otherwise `IpMode::Ip4`); `auto_nat` is
+    /// `Config::auto_nat_listen_duration` (with `Some(_)` a tokio runtime must be entered, the
+    /// connectivity state arms a `tokio::time::sleep`).
+    pub fn new(
+        local_enr: Enr,
+        enr_key: CombinedKey,
+        minimum_threshold: usize,
+        vote_duration: Duration,
+        dual_stack: bool,
+        auto_nat: Option<Duration>,
+        event_capacity: usize,
+    ) -> Self {
+        let listen_config = if dual_stack {
+            ListenConfig::DualStack {
+                ipv4: std::net::Ipv4Addr::UNSPECIFIED,
+                ipv4_port: 9000,
+                ipv6: std::net::Ipv6Addr::UNSPECIFIED,
+                ipv6_port: 9001,
+            }
+        } else {
+            ListenConfig::Ipv4 {
+                ip: std::net::Ipv4Addr::UNSPECIFIED,
+                port: 9000,
+            }
+        };
+        let config = ConfigBuilder::new(listen_config)
+            .enr_peer_update_min(minimum_threshold)
+            .vote_duration(vote_duration)
+            .auto_nat_listen_duration(auto_nat)
+            .build();
+        let ip_mode = if dual_stack {
+            IpMode::DualStack
+        } else {
+            IpMode::Ip4
+        };
+        let (service, rx, tx, events) = Service::verif_new(
+            Arc::new(RwLock::new(local_enr)),
+            Arc::new(RwLock::new(enr_key)),
+            config,
+            ip_mode,
+            event_capacity,
+        );
+        PongService {
+            service,
+            events,
+            next_id: 1,
+            _handler_rx: rx,
+            _handler_tx: tx,
+        }
+    }
+
+    /// Puts a peer into the routing table with the given status (`insert_or_update`); returns the
+    /// debug form of the result.
+    pub fn set_peer(&mut self, enr: Enr, connected: bool, incoming: bool) -> String {
+        let status = NodeStatus {
+            state: if connected {
+                ConnectionState::Connected
+            } else {
+                ConnectionState::Disconnected
+            },
+            direction: if incoming {
+                ConnectionDirection::Incoming
+            } else {
+                ConnectionDirection::Outgoing
+            },
+        };
+        let key = enr.node_id().into();
+        let r = self
+            .service
+            .verif_kbuckets()
+            .write()
+            .insert_or_update(&key, enr, status);
+        format!("{:?}", r)
+    }
+
+    /// `(connected, incoming)` of a peer in the routing table.
+    pub fn peer_status(&self, node_id: &NodeId) -> Option<(bool, bool)> {
+        let key = (*node_id).into();
+        match self.service.verif_kbuckets().write().entry(&key) {
+            crate::kbucket::Entry::Present(_, s) => Some((s.is_connected(), s.is_incoming())),
+            _ => None,
+        }
+    }
+
+    /// `Service::handle_ip_vote_from_pong(node_id, socket)`.
+    pub fn vote(&mut self, node_id: NodeId, socket: SocketAddr) {
+        self.service.verif_handle_ip_vote_from_pong(node_id, socket)
+    }
+
+    /// The PONG branch of `Service::handle_rpc_response` for a keep-alive PING sent to `peer`.
+    /// Returns false if the peer is not contactable in the service's IP mode or the port is 0.
+    pub fn pong(&mut self, peer: Enr, enr_seq: u64, reported: SocketAddr) -> bool {
+        let mode = if self.service.verif_is_dual_stack() {
+            IpMode::DualStack
+        } else {
+            IpMode::Ip4
+        };
+        let Ok(contact) = NodeContact::try_from_enr(peer, mode) else {
+            return false;
+        };
+        let Some(port) = std::num::NonZeroU16::new(reported.port()) else {
+            return false;
+        };
+        let id = RequestId(self.next_id.to_be_bytes().to_vec());
+        self.next_id += 1;
+        self.service
+            .verif_handle_pong_response(contact, id, enr_seq, reported.ip(), port);
+        true
+    }
+
+    pub fn local_enr(&self) -> Enr {
+        self.service.verif_local_enr()
+    }
+
+    /// The `SocketUpdated` events emitted since the last call (other events are counted).
+    pub fn socket_events(&mut self) -> (Vec<SocketAddr>, usize) {
+        let mut out = vec![];
+        let mut other = 0;
+        while let Ok(ev) = self.events.try_recv() {
+            match ev {
+                Event::SocketUpdated(s) => out.push(s),
+                _ => other += 1,
+            }
+        }
+        (out, other)
+    }
+}
